@@ -207,7 +207,7 @@ package container
 
 // execve: every path that returns nil leaves the protocol idle (or the transport lost); every
 // received descriptor is closed; the runner literal always drops capabilities and sets no_new_privs.
-//@ func container.(*containerServer).handleExecve props C04 C07 C10 C12
+//@ func container.(*containerServer).handleExecve props C04 C06 C07 C10 C12
 //@   arith int
 //@   requires P.st == 2 && c != nil && cmd != nil && WA.tokens == 0
 //@   requires forall j int :: soff(msg.Fds) <= j && j < soff(msg.Fds) + len(msg.Fds) ==> 0 <= cell(msg.Fds, j) && cell(msg.Fds, j) < 2147483648
@@ -352,7 +352,7 @@ package container
 
 // Runner Error iff transport error, error reply or missing exec reply - always with a text;
 // otherwise status, exit value, time and memory are passed through unchanged.
-//@ func container.convertReplyResult props C09
+//@ func container.convertReplyResult props C08 C09
 //@   arith int
 //@   assigns nothing
 //@   ensures err != nil || reply.Error != nil || reply.ExecReply == nil ==> int(result.Status) == 8
@@ -436,21 +436,21 @@ package container
 
 // ---- gob framing of commands and replies (C19): one datagram carries exactly the encoding of this
 // call's value - nothing left over from an earlier (failed) send - and at most bufferSize bytes ----
-//@ func container.(*socket).SendMsg props C19
+//@ func container.(*socket).SendMsg props C10 C19
 //@   arith int
 //@   requires s != nil && s.Socket != nil && s.Socket.UnixConn != nil && s.encoder != nil
 //@   assigns SB.clean, SB.len, B.n, B.item
 //@   callsite (*Encoder).Encode: assert @C19 SB.clean
 //@   callsite (*Socket).SendMsg: assert @C19 SB.len <= 32768 && m == msg
 
-//@ func container.(*bufferRotator).Rotate
+//@ func container.(*bufferRotator).Rotate props C19
 //@   arith int
 //@   requires b != nil
 //@   assigns b.Buffer
 //@   ensures b.Buffer == buffer
 
 // a received datagram is decoded from exactly the n bytes that arrived with it
-//@ func container.(*socket).RecvMsg props C19
+//@ func container.(*socket).RecvMsg props C10 C12 C19
 //@   arith int
 //@   requires s != nil && s.Socket != nil && s.Socket.UnixConn != nil && len(s.Socket.recvBuff) == 4096 && s.decoder != nil
 //@   assigns all(s.buff), all(s.Socket.recvBuff), s.recvBuff.Buffer, S.nrights, S.right, S.flags, FD.closed
@@ -506,7 +506,7 @@ package container
 
 // ---- the send loop of the container init (C12): the files queued with a reply are closed after the send,
 // whether or not the send succeeded ----
-//@ func container.(*containerServer).sendLoop props C12 C19
+//@ func container.(*containerServer).sendLoop props C10 C12 C19
 //@   arith int
 //@   requires c != nil && c.socket != nil && c.socket.Socket != nil && c.socket.Socket.UnixConn != nil && c.socket.encoder != nil
 //@   requires sep(c, c.socket) && sep(c.socket, c.socket.Socket) && sep(c, c.socket.Socket)
